@@ -237,4 +237,10 @@ def toyGrp : Grp Nat :=
 /-- a toy hash that reads every byte: a polynomial checksum, eight bytes -/
 def toyH (b : Bytes) : Bytes := natLE 8 (b.foldl (fun acc x => (acc * 257 + x.toNat + 1) % 2 ^ 61) 7)
 
+/-- the key holder's signature over a commitment shifted by a point T (seeded C20g-1: T a torsion point):
+R′ = k•B + T, h′ = H(R′‖A‖m), S = k + h′·x -/
+def shiftedSign {G : Type} (g : Grp G) (H : Bytes → Bytes) (x k : Nat) (T : G) (msg : Bytes) : Bytes :=
+  let R := g.add (g.smul k g.base) T
+  g.enc R ++ natLE 32 ((k + x * challenge g H (g.smul x g.base) R msg % ell) % ell)
+
 end Dos.SchnorrHist
